@@ -57,7 +57,7 @@ def reference():
 
 HIST_CONSTS = {
     "quick": dict(Inputs="{1, 4, 5}", Levels="Lv", MaxObjs=2, MaxEvents=4, Ctors="CtorsAll"),
-    "thorough": dict(Inputs="{1, 2, 3, 4, 5}", Levels="Lv", MaxObjs=3, MaxEvents=5, Ctors="CtorsAll"),
+    "thorough": dict(Inputs="{1, 2, 3, 4, 5}", Levels="Lv", MaxObjs=2, MaxEvents=5, Ctors="CtorsAll"),
 }
 
 
